@@ -103,11 +103,17 @@ pub struct Ctx {
     pub capped: bool,
     /// running digest of everything observed in the current run (determinism self-test)
     pub digest: u64,
+    /// replay/minimisation only: (operation index, printed position) at every start of turn
+    pub record_turn_starts: bool,
+    pub turn_starts: Vec<(usize, String)>,
+    /// pool building (concurrent scenarios): states at which the repetition rules withhold something
+    pub capture_limit: usize,
+    pub captured: Vec<(u8, arimaa_engine_step::GameState)>,
 }
 
 impl Ctx {
     pub fn new(own: PropMask) -> Ctx {
-        Ctx { own, findings: vec![], stats: Stats::default(), evals: 0, distinct: FpSet::default(), states: FpSet::default(), capped: false, digest: 0 }
+        Ctx { own, findings: vec![], stats: Stats::default(), evals: 0, distinct: FpSet::default(), states: FpSet::default(), capped: false, digest: 0, record_turn_starts: false, turn_starts: vec![], capture_limit: 0, captured: vec![] }
     }
     /// record that monitor `monitor` (owned by `owners`) was evaluated; if `bad`, record a finding
     #[inline]
